@@ -33,9 +33,9 @@ inline Profile make_profile(const std::string& n) {
   auto W = [&](int k, int w) { p.weight[k] = w; };
   if (n == "plain") {
     W(O_CREATE, 24); W(O_RELEASE, 10); W(O_CALL, 52); W(O_MOVE_MOCK, 3); W(O_DESTROY_MOCK, 2); W(O_RECREATE_MOCK, 3);
-    W(O_SWAP_REPORTER, 2); W(O_DESTROY_HUSKS, 1); p.p_lit = 20; p.concentrate = true;
+    W(O_SWAP_REPORTER, 2); W(O_DESTROY_HUSKS, 1); W(O_SCOPED, 5); p.p_lit = 20; p.concentrate = true;
   } else if (n == "forbid") {
-    W(O_CREATE, 26); W(O_RELEASE, 12); W(O_CALL, 56); W(O_MOVE_MOCK, 2); W(O_DESTROY_MOCK, 1); W(O_RECREATE_MOCK, 2); W(O_DESTROY_HUSKS, 1);
+    W(O_CREATE, 26); W(O_RELEASE, 12); W(O_CALL, 56); W(O_MOVE_MOCK, 2); W(O_DESTROY_MOCK, 1); W(O_RECREATE_MOCK, 2); W(O_DESTROY_HUSKS, 1); W(O_SCOPED, 5);
     p.p_lit = 30; p.concentrate = true; p.p_forbid = 35; p.p_inf = 40; p.p_fx = 35;
   } else if (n == "overlap") {
     W(O_CREATE, 28); W(O_RELEASE, 8); W(O_CALL, 58); W(O_MOVE_MOCK, 1); W(O_SWAP_REPORTER, 1);
@@ -64,7 +64,7 @@ inline Profile make_profile(const std::string& n) {
     p.name = "all";
     W(O_CREATE, 22); W(O_RELEASE, 8); W(O_CALL, 40); W(O_MOVE_MOCK, 2); W(O_DESTROY_MOCK, 2); W(O_RECREATE_MOCK, 2);
     W(O_DESTROY_SEQ, 2); W(O_MOVE_SEQ, 1); W(O_RECREATE_SEQ, 2); W(O_WATCH, 4); W(O_UNWATCH, 2); W(O_DESTROY_DW, 3); W(O_COPY_DW, 1);
-    W(O_MOVE_DW, 1); W(O_ASSIGN_DW, 1); W(O_RECREATE_DW, 2); W(O_PUSH_TRACER, 2); W(O_POP_TRACER, 1); W(O_SWAP_REPORTER, 1); W(O_DESTROY_HUSKS, 1);
+    W(O_MOVE_DW, 1); W(O_ASSIGN_DW, 1); W(O_RECREATE_DW, 2); W(O_PUSH_TRACER, 2); W(O_POP_TRACER, 1); W(O_SWAP_REPORTER, 1); W(O_DESTROY_HUSKS, 1); W(O_SCOPED, 3);
     p.p_seq = 40; p.p_watch_seq = 40; p.p_lit = 12; p.p_with = 30; p.p_fx = 30;
   }
   return p;
@@ -157,6 +157,15 @@ inline Op decode(const uint8_t* b, const Profile& p) {
     case O_ASSIGN_DW: o.a = {static_cast<int>(b[2] % NDW), static_cast<int>(b[3] % NDW), b[4] % 2}; break;
     case O_SWAP_REPORTER: o.a = {b[2] % 2}; break;
     case O_PUSH_TRACER: o.a = {b[2] % 3 == 0 ? 1 : 0}; break;
+    case O_SCOPED: {
+      int ob = p.concentrate ? (b[2] % 8 < 6 ? 0 : 1) : b[2] % NOBJ;
+      int fa = b[3] % 8, fb = b[4] % 3 == 0 ? -1 : b[5] % 8;
+      if (fb == fa) fb = (fa + 1 + b[6] % 7) % 8;
+      int n = 1 + b[7] % 4;
+      o.a = {ob, fa, fb, n};
+      for (int i = 0; i < n; ++i) { o.a.push_back(b[8 + 2 * i] % 8 == 0 ? 1 : 0); o.a.push_back(b[9 + 2 * i] % 16 == 15 ? 77 : b[9 + 2 * i] % 6); }
+      break;
+    }
     default: break;
   }
   return o;
